@@ -69,8 +69,9 @@ func opAggregate(r *rand.Rand, n int, tier string) {
 		default:
 			size = 2 + r.Intn(9)
 		}
-		if tier == "thorough" && r.Intn(50) == 0 {
-			size = 500 + r.Intn(1500)
+		if tier == "thorough" && r.Intn(300) == 0 {
+			// (the extracted model is quadratic with a large constant: a few big snapshots per run)
+			size = 300 + r.Intn(700)
 		}
 		k := 1 + r.Intn(3)
 		gs := genSnapshot(r, size, k, r.Intn(2) == 0)
